@@ -263,11 +263,9 @@ def foldHistory (W : World) (R : Render) (cfg : Cfg) (fuel : Nat) :
       foldHistory W R cfg fuel fs r.2.1 rest impl' out'
   | fs, cache, s :: rest, impl, out => foldHistory W R cfg fuel (fs.apply s) cache rest impl out
 
-/-- C12: a history over a tree of template sources -/
-def opHistory : Op := fun j => do
-  let cfg ← cfgFromJson (← getField j "cfg")
-  let fuel ← getNat j "fuel"
-  let size ← getNat j "cache_size"
+/-- the tables of the model's world (`texts`, `tops`, `render`) and the initial tree (`init`) of a
+request (shared by `yaml.history` and `conc.yaml`, C19) -/
+def worldFromJson (j : Json) : Except String (World × Render × Fs) := do
   let texts ← (← getArr j "texts").mapM (fun e => do
     let q ← e.getArr?
     return (← (q[0]?.getD Json.null).getStr?, ← parsedFromJson (q[1]?.getD Json.null)))
@@ -294,6 +292,14 @@ def opHistory : Op := fun j => do
     let n ← snodeFromJson (q[1]?.getD Json.null)
     return (p, n))
   let fs : Fs := ⟨top, fun p => (assocGet p files).getD none⟩
+  return (W, R, fs)
+
+/-- C12: a history over a tree of template sources -/
+def opHistory : Op := fun j => do
+  let cfg ← cfgFromJson (← getField j "cfg")
+  let fuel ← getNat j "fuel"
+  let size ← getNat j "cache_size"
+  let (W, R, fs) ← worldFromJson j
   let steps ← (← getArr j "steps").mapM stepFromJson
   let implLong ← (← getArr j "impl").mapM obsFromJson
   let implFresh ← (← getArr j "impl_fresh").mapM obsFromJson
